@@ -437,6 +437,28 @@ struct C02Dec
         ctx.nontrivial = entry_count(v) > 0 || blob.size() > 40;
         if (blob.size() > 16384 + 4)
             ctx.label("blob>16KiB");
+        // Decoders are called one after another on the same thread, and real libraries hold damaged blobs next to good ones: one time in
+        // four a damaged copy of this foreign blob (cut short, one byte altered, wrong length prefix) goes through the decoder first, its
+        // verdict ignored; the agreement on the intact blob must not depend on what the rejected call left behind.
+        if (s.below(4) == 0 && !blob.empty())
+        {
+            uint64_t poison = s.raw();
+            LibBytes bad = to_lib(blob);
+            switch (poison % 3)
+            {
+                case 0: bad.resize(static_cast<size_t>((poison / 3) % bad.size())); break;
+                case 1: bad[static_cast<size_t>((poison / 3) % bad.size())] ^= static_cast<std::byte>(0x5a); break;
+                default: bad[static_cast<size_t>((poison / 3) % std::min<size_t>(4, bad.size()))] ^= static_cast<std::byte>(0x01); break;
+            }
+            try
+            {
+                (void)T::dec(bad);
+            }
+            catch (const std::exception&)
+            {
+            }
+            ctx.label("after-rejected-decode");
+        }
         // 1.x encoders/decoders reject what the format reserves: empty labels on populated slots (decoder: accepted), etc.
         typename T::V back;
         try
